@@ -348,6 +348,9 @@ func runC06(c *fw.Check) {
 		bound = 3
 		c.SetBudget(45 * 60 * 1e9)
 	}
+	if c.Deep() {
+		bound = 4
+	}
 	entries := gen.Catalogue()
 	all, batches := genBatches(entries, bound, 60)
 	c.Rule = fmt.Sprintf("all variants with <=%d deviations of the generator catalogue over a WIDENED type universe (i1..i1024, all six floating-point kinds, pointers in 5 address spaces, fixed and scalable vectors of 8 shapes, arrays, literal/packed/identified structs, function pointers with and without varargs); for EVERY value-producing instruction, value-producing terminator and constant expression of the parsed module the type the parser attached (T_asm) is compared (Equal both ways and spelling) with the type the IR library computes when the same operands are handed to its constructor (T_ir: a table of 95 constructors, completeness checked against the kinds go/types lists from the current source); every result is used at the type the library reports, and llvm-as must accept the printed module (LLVM itself is the typing model). distinct = variants.", bound)
